@@ -1,0 +1,17 @@
+//go:build verif
+
+// Machine-checked contracts for package utils (comment-only; read by /verif/gocv).
+
+package utils
+
+// s is in the slice: exactly (caseSensitive) or up to case folding
+//@ pred strIn(l []string, s string, cs bool) bool := exists k int :: 0 <= k && k < len(l) && ((cs && l[k] == s) || (!cs && strings.EqualFold(l[k], s)))
+
+//@ func StringSliceContains
+//@   assigns nothing
+//@   ensures [found] result ==> (exists k int :: 0 <= k && k < len(slice) && ((caseSensitive && slice[k] == str) || (!caseSensitive && strings.EqualFold(slice[k], str))))
+//@   witness [found] k := $i1 + 1
+//@   ensures [not_found] !result ==> (forall k int :: 0 <= k && k < len(slice) ==> !((caseSensitive && slice[k] == str) || (!caseSensitive && strings.EqualFold(slice[k], str))))
+//@ loop 1
+//@   invariant $i >= -1
+//@   invariant forall k int :: 0 <= k && k <= $i ==> !((caseSensitive && slice[k] == str) || (!caseSensitive && strings.EqualFold(slice[k], str)))
